@@ -230,6 +230,117 @@ fn gating(rep: &mut Report, tier: &Tier) {
     for r in results {
         rep.merge(r);
     }
+    // the same question with the work carried by the block's golden-ticket transaction (a
+    // non-Normal transaction that has inputs, pays the fee and was routed): its path counts under
+    // the same conditions as a payment's
+    let mut cases2 = vec![];
+    for e in [1u64, hb / 2, hb] {
+        for kind in PATHS {
+            for delta in [-1i64, 1] {
+                cases2.push((e, kind, delta));
+            }
+        }
+    }
+    let results = par_map(&cases2, workers(), |i, (e, kind, delta)| {
+        let mut r = rep.child();
+        r.evaluations += 1;
+        let ts = w.blocks[tip].ts + e;
+        let needed = work(pbf, *e, hb);
+        let target = (needed as i64 + delta).max(0) as u64;
+        let fee = match kind {
+            PathKind::TwoHop => target.saturating_mul(2).saturating_sub(if target > 0 { 1 } else { 0 }).max(target),
+            _ => target,
+        };
+        // a payment with the wanted path, retyped into the golden ticket of this block
+        let Some(pay) = routed_tx(&w, tip, fee, PathKind::NoPath, ts, 900 + i as u64) else {
+            r.outcome("case-unbuildable");
+            return r;
+        };
+        let k1 = key(1);
+        let Ok(node) = w.builder_at(tip) else {
+            r.machinery("no builder".into());
+            return r;
+        };
+        let difficulty = node.blockchain.try_read().unwrap().get_block(&w.blocks[tip].hash).map(|b| b.difficulty).unwrap_or(0);
+        let mut gt = golden_ticket_tx(w.blocks[tip].hash, difficulty, &k1, 0);
+        gt.from = pay.from.clone();
+        gt.to = pay.to.clone();
+        gt.timestamp = ts;
+        gt.sign(&k1.private);
+        let c = w.creator.public;
+        match kind {
+            PathKind::NoPath => {}
+            PathKind::OneHop => add_hops(&mut gt, &[k1], &c),
+            PathKind::TwoHop => add_hops(&mut gt, &[k1, key(4)], &c),
+            PathKind::NotToCreator => add_hops(&mut gt, &[k1], &key(5).public),
+            PathKind::Broken => {
+                let h1 = Hop::generate(&k1.private, &k1.public, &key(4).public, &gt);
+                let h2 = Hop::generate(&key(5).private, &key(5).public, &c, &gt);
+                gt.path.push(h1);
+                gt.path.push(h2);
+            }
+            PathKind::ForgedSig => {
+                add_hops(&mut gt, &[k1], &c);
+                gt.path[0].sig[7] ^= 1;
+            }
+            PathKind::SelfHop => {
+                let mut h = Hop::generate(&w.creator.private, &c, &key(4).public, &gt);
+                h.to = c;
+                h.sig = saito_core::core::util::crypto::sign(&[gt.signature.as_slice(), c.as_slice()].concat(), &w.creator.private);
+                gt.path.push(h);
+            }
+        }
+        let (tx_ok, ow) = oracle_work(&gt, fee, &w.creator.public);
+        gt.generate(&w.creator.public, 0, 0);
+        let bc = node.blockchain.clone();
+        let cfg = node.cfg.clone();
+        let storage = &node.storage;
+        let creator = w.creator;
+        let phash = w.blocks[tip].hash;
+        let filler = {
+            let mut t = make_tx(&[], &[(key(5).public, 0)], &key(5), ts, b"f");
+            t.generate(&creator.public, 0, 0);
+            t
+        };
+        let gt2 = gt.clone();
+        let made = crate::exec::run(async {
+            let bc = bc.read().await;
+            let mut map = txmap(vec![filler]);
+            saito_core::core::consensus::block::Block::create(&mut map, phash, &bc, ts, &creator.public, &creator.private, Some(gt2), &cfg, storage).await
+        });
+        let blk = match made {
+            Outcome::Done(Ok(b)) => b,
+            _ => {
+                r.outcome("producer-refused");
+                return r;
+            }
+        };
+        let bytes = block_bytes(&blk);
+        let Ok(mut n) = w.node_at(tip, key(9)) else {
+            r.machinery("no node".into());
+            return r;
+        };
+        let res = n.add_block_bytes(&bytes);
+        let accepted = matches!(res, Outcome::Done(AddRes::AddedLongest));
+        let ctx = json!({"carrier": "golden ticket transaction", "elapsed": e, "path": format!("{:?}", kind), "needed": needed, "oracle_work": ow, "fee": fee, "tx_valid": tx_ok, "result": format!("{:?}", res)});
+        if let Outcome::Panicked(m) = &res {
+            r.violate(&format!("abort/{:?}/golden-ticket-carrier", kind), m.clone(), ctx.clone());
+            return r;
+        }
+        r.distinct.insert(format!("gt:{}:{:?}:{}", e, kind, delta));
+        let band = (ow as i128 - needed as i128).abs() <= 1 && needed > 0;
+        if accepted && !tx_ok {
+            r.violate(&format!("block-with-invalid-path-accepted/{:?}/golden-ticket-carrier", kind), format!("{}", ctx), ctx.clone());
+        } else if accepted && ow < needed && !band {
+            r.violate(&format!("accepted-without-enough-work/{:?}/golden-ticket-carrier", kind), format!("{}", ctx), ctx.clone());
+        }
+        r.outcome(&format!("{}:{}/golden-ticket-carrier", if accepted { "accepted" } else { "rejected" }, if ow >= needed { "enough" } else { "short" }));
+        r.traces_validated += 1;
+        r
+    });
+    for r in results {
+        rep.merge(r);
+    }
 }
 
 fn eligible_keys(blk: &saito_core::core::consensus::block::Block) -> BTreeSet<SaitoPublicKey> {
